@@ -258,6 +258,25 @@ def directed(ctx, R):
                     check_pair(ctx, dt1, dt2, 'aware-aware', R)
                     check_pair(ctx, dt2, dt1, 'aware-aware', R)
                     ctx.count('directed_dst_zone_pairs')
+    # ... inside the repeated hour the two passes are told apart by fold only: the difference of same-zone datetimes is
+    # wall-clock arithmetic whatever their instants' order; and aware operands at the ends of the year range
+    for z, day in ((tz.tzstr('EST5EDT,M3.2.0/2,M11.1.0/2'), D.datetime(2021, 11, 7)), (tz.gettz('Europe/London'), D.datetime(2021, 10, 31))):
+        if z is None:
+            continue
+        for m1, f1, m2, f2 in ((50, 0, 10, 1), (10, 1, 50, 0), (10, 0, 10, 1), (30, 1, 30, 0)):
+            a = day.replace(hour=1, minute=m1, tzinfo=z, fold=f1)
+            b = day.replace(hour=1, minute=m2, tzinfo=z, fold=f2)
+            for other in (b, rd_ref.shift_clip(b.replace(tzinfo=None), -1).replace(tzinfo=z, fold=f2), rd_ref.shift_clip(b.replace(tzinfo=None), 12).replace(tzinfo=z, fold=f2)):
+                check_pair(ctx, a, other, 'aware-aware', R)
+                check_pair(ctx, other, a, 'aware-aware', R)
+                ctx.count('directed_fold_pairs')
+    for off in (5 * 3600, -5 * 3600, 14 * 3600, -12 * 3600):
+        z = tz.tzoffset('X', off)
+        for edge in (D.datetime(1, 1, 1, 2, 0), D.datetime(9999, 12, 31, 21, 0), D.datetime(1, 1, 1), D.datetime(9999, 12, 31, 23, 59, 59, 999999)):
+            a, b = edge.replace(tzinfo=z), D.datetime(2000, 6, 15, 12, tzinfo=z)
+            check_pair(ctx, a, b, 'aware-aware', R)
+            check_pair(ctx, b, a, 'aware-aware', R)
+            ctx.count('directed_aware_range_ends')
     # extremes
     lo, hi = D.datetime(1, 1, 1), D.datetime(9999, 12, 31, 23, 59, 59, 999999)
     for a, b in ((lo, hi), (hi, lo), (lo.date(), hi.date()), (hi.date(), lo), (D.date(1, 1, 31), D.date(9999, 2, 28))):
